@@ -47,7 +47,8 @@ Scan(s, i, mx, lv) ==
       d == mx2 - s[i].tb
       m == Len(s) - i + 1
       W == lv[1]  max == lv[2]  burst == lv[3] IN
-  IF m > burst /\ (m - burst > 400 \/ (m - burst) * W > d * max) THEN 1
+  IF m - burst > 400 THEN 0          \* suffixes are scanned up to 400 admissions beyond the burst (32-bit products); longer ones are not judged
+  ELSE IF m > burst /\ (m - burst) * W > d * max THEN 1
   ELSE IF d <= W /\ m > 2 * max THEN 2
   ELSE Scan(s, i - 1, mx2, lv)
 
